@@ -16,6 +16,7 @@ pub struct World {
     pub dict: Map<Seq<u8>, u64>,        // in-memory dictionary: name -> id of the registered handle
     pub seqno: u64, pub visible: u64,   // the two shared counters
     pub recovering: bool,               // no other thread has a handle yet
+    pub active: bool,                   // the journal being replayed is the ACTIVE one: what is re-applied stays in the active memtable
     pub level_violations: Seq<(u64, u64)>,
     pub next_ks_id: u64,                // Database.keyspace_id_counter: the next internal keyspace id to hand out
     pub queue: Seq<QItemG>,             // JournalManager: sealed journals awaiting eviction, oldest first
@@ -42,9 +43,13 @@ pub open spec fn replay_item(w: World, t: Map<u64, TreeG>, it: ItemV, seqno: u64
 pub open spec fn replay_items(w: World, t: Map<u64, TreeG>, items: Seq<ItemV>, n: int, seqno: u64) -> Map<u64, TreeG>
     decreases n
 { if n <= 0 { t } else { replay_item(w, replay_items(w, t, items, n - 1, seqno), items[n - 1], seqno) } }
+/// clear(): every layer of the tree is dropped; in particular the active memtable is empty afterwards
+pub open spec fn clear_tree(t: Map<u64, TreeG>, k: u64) -> Map<u64, TreeG> {
+    t.insert(k, TreeG { applied: t[k].applied.push(ApplyG { kind: ApplyKind::Clear, key: Seq::empty(), value: Seq::empty(), seqno: 0 }), mem_max: None, ..t[k] })
+}
 pub open spec fn replay_clear(w: World, t: Map<u64, TreeG>, id: u64, seqno: u64) -> Map<u64, TreeG> {
     match resolve(w, id) {
-        Some(k) => push_apply(t, k, ApplyG { kind: ApplyKind::Clear, key: Seq::empty(), value: Seq::empty(), seqno: 0 }),
+        Some(k) => clear_tree(t, k),
         None => t,
     }
 }
@@ -88,7 +93,8 @@ impl MetaKeyspace {
     { unimplemented!() }
 }
 pub struct AnyTree { pub id: Ghost<u64> }
-pub struct Keyspace { pub id: InternalKeyspaceId, pub tree: AnyTree }
+pub struct Keyspace { pub id: InternalKeyspaceId, pub tree: AnyTree, pub name: StrView }
+impl Clone for Keyspace { #[verifier::external_body] fn clone(&self) -> (r: Keyspace) ensures r == *self { unimplemented!() } }   // Arc clone: same handle
 pub struct KsReadGuard { pub vals: Vec<Keyspace> }
 impl KsReadGuard {
     // HashMap<KeyspaceKey, Keyspace>::get through the read guard
@@ -108,26 +114,29 @@ impl AnyTree {
     #[verifier::external_body]
     pub fn insert(&self, key: UserKey, value: UserValue, seqno: u64, Tracked(w): Tracked<&mut World>) -> (r: (u64, u64))
         requires old(w).recovering, old(w).trees.dom().contains(self.id@),
-                 level_ok(old(w).trees[self.id@], seqno), // [C04:P-LEVEL] [C01:P-LEVEL] [C18:P-REPLAY]
+                 // (for a SEALED journal the rebuilt memtable is judged as a whole afterwards: P-KEEP in U-SEALED)
+                 old(w).active ==> level_ok(old(w).trees[self.id@], seqno), // [C04:P-LEVEL] [C01:P-LEVEL] [C18:P-REPLAY]
         ensures *final(w) == (World { trees: push_apply(old(w).trees, self.id@, ApplyG { kind: ApplyKind::Insert, key: key@, value: value@, seqno }), ..*old(w) }),
     { unimplemented!() }
     #[verifier::external_body]
     pub fn remove(&self, key: UserKey, seqno: u64, Tracked(w): Tracked<&mut World>) -> (r: (u64, u64))
         requires old(w).recovering, old(w).trees.dom().contains(self.id@),
-                 level_ok(old(w).trees[self.id@], seqno), // [C04:P-LEVEL] [C01:P-LEVEL] [C18:P-REPLAY]
+                 // (for a SEALED journal the rebuilt memtable is judged as a whole afterwards: P-KEEP in U-SEALED)
+                 old(w).active ==> level_ok(old(w).trees[self.id@], seqno), // [C04:P-LEVEL] [C01:P-LEVEL] [C18:P-REPLAY]
         ensures *final(w) == (World { trees: push_apply(old(w).trees, self.id@, ApplyG { kind: ApplyKind::Remove, key: key@, value: Seq::empty(), seqno }), ..*old(w) }),
     { unimplemented!() }
     #[verifier::external_body]
     pub fn remove_weak(&self, key: UserKey, seqno: u64, Tracked(w): Tracked<&mut World>) -> (r: (u64, u64))
         requires old(w).recovering, old(w).trees.dom().contains(self.id@),
-                 level_ok(old(w).trees[self.id@], seqno), // [C04:P-LEVEL] [C01:P-LEVEL] [C18:P-REPLAY]
+                 // (for a SEALED journal the rebuilt memtable is judged as a whole afterwards: P-KEEP in U-SEALED)
+                 old(w).active ==> level_ok(old(w).trees[self.id@], seqno), // [C04:P-LEVEL] [C01:P-LEVEL] [C18:P-REPLAY]
         ensures *final(w) == (World { trees: push_apply(old(w).trees, self.id@, ApplyG { kind: ApplyKind::RemoveWeak, key: key@, value: Seq::empty(), seqno }), ..*old(w) }),
     { unimplemented!() }
     // a replayed clear drops every layer of the tree: it must not be older than anything already in the tables (P-CLEAR)
     #[verifier::external_body]
-    pub fn clear(&self, Tracked(w): Tracked<&mut World>) -> (r: ClearResult)
+    pub fn clear(&self, Tracked(w): Tracked<&mut World>) -> (r: Result<(), lsm_tree::Error>)
         requires old(w).recovering, old(w).trees.dom().contains(self.id@),
-        ensures *final(w) == (World { trees: push_apply(old(w).trees, self.id@, ApplyG { kind: ApplyKind::Clear, key: Seq::empty(), value: Seq::empty(), seqno: 0 }), ..*old(w) }),
+        ensures *final(w) == (World { trees: clear_tree(old(w).trees, self.id@), ..*old(w) }),
     { unimplemented!() }
     #[verifier::external_body]
     pub fn get_highest_seqno(&self, Tracked(w): Tracked<&mut World>) -> (r: Option<u64>)
